@@ -1,0 +1,187 @@
+//! Verification hooks (compiled only with `--cfg fast_qr_verif`).
+//!
+//! Thin public wrappers over crate-private items so that an external harness
+//! can extract the complete function graphs of the hard-coded tables and drive
+//! the internal stages of the pipeline directly. Nothing here changes behaviour.
+#![allow(missing_docs)]
+
+use crate::compact::CompactQR;
+use crate::datamasking::Mask;
+use crate::encode::Mode;
+use crate::{QRCode, Version, ECL};
+
+pub const VERSIONS: [Version; 40] = {
+    use Version::*;
+    [
+        V01, V02, V03, V04, V05, V06, V07, V08, V09, V10, V11, V12, V13, V14, V15, V16, V17, V18,
+        V19, V20, V21, V22, V23, V24, V25, V26, V27, V28, V29, V30, V31, V32, V33, V34, V35, V36,
+        V37, V38, V39, V40,
+    ]
+};
+pub const ECLS: [ECL; 4] = [ECL::L, ECL::M, ECL::Q, ECL::H];
+pub const MODES: [Mode; 3] = [Mode::Numeric, Mode::Alphanumeric, Mode::Byte];
+
+// ---- version.rs -------------------------------------------------------------------------
+pub fn version_get(mode: Mode, ecl: ECL, len: usize) -> Option<Version> {
+    Version::get(mode, ecl, len)
+}
+pub fn version_from_n(n: usize) -> Version {
+    Version::from_n(n)
+}
+pub fn version_missing_bits(v: Version) -> usize {
+    v.missing_bits()
+}
+pub fn version_max_bytes(v: Version) -> usize {
+    v.max_bytes()
+}
+pub fn version_information(v: Version) -> u32 {
+    v.information()
+}
+pub fn version_alignment_patterns_grid(v: Version) -> &'static [usize] {
+    v.alignment_patterns_grid()
+}
+pub fn version_size(v: Version) -> usize {
+    v.size()
+}
+
+// ---- hardcode.rs ------------------------------------------------------------------------
+pub fn ecc_to_groups(ecl: ECL, v: Version) -> [(usize, usize); 2] {
+    crate::hardcode::ecc_to_groups(ecl, v)
+}
+pub fn ecm_to_format_information(ecl: ECL, mask: Mask) -> u16 {
+    crate::hardcode::ecm_to_format_information(ecl, mask)
+}
+pub fn data_codewords(v: Version, ecl: ECL) -> usize {
+    crate::hardcode::data_codewords(v, ecl)
+}
+pub fn data_bits(v: Version, ecl: ECL) -> usize {
+    crate::hardcode::data_bits(v, ecl)
+}
+pub fn cci_bits(v: Version, mode: Mode) -> usize {
+    crate::hardcode::cci_bits(v, mode)
+}
+pub fn get_polynomial(v: Version, ecl: ECL) -> &'static [u8] {
+    crate::hardcode::get_polynomial(v, ecl)
+}
+pub fn percent_score() -> [u8; 100] {
+    crate::hardcode::PERCENT_SCORE
+}
+
+// ---- compact.rs -------------------------------------------------------------------------
+pub fn keep_last() -> Vec<usize> {
+    crate::compact::KEEP_LAST.to_vec()
+}
+/// Runs a script of `push_bits(bits, len)` / `push_u8` (len == 1000) / `fill` (len == 1001)
+/// on a fresh `CompactQR::from_version(v)` and returns `(len, data)`.
+pub fn compact_script(v: Version, script: &[(usize, usize)]) -> (usize, Vec<u8>) {
+    let mut c = CompactQR::from_version(v);
+    for &(bits, len) in script {
+        match len {
+            1000 => c.push_u8(bits as u8),
+            1001 => c.fill(),
+            _ => c.push_bits(bits, len),
+        }
+    }
+    (c.len(), c.get_data().clone())
+}
+
+// ---- encode.rs --------------------------------------------------------------------------
+pub fn encode(input: &[u8], ecl: ECL, mode: Mode, v: Version) -> (usize, Vec<u8>) {
+    let c = crate::encode::encode(input, ecl, mode, v);
+    (c.len(), c.get_data().clone())
+}
+pub fn best_encoding(input: &[u8]) -> Mode {
+    crate::encode::best_encoding(input)
+}
+pub fn is_qr_alphanumeric(c: u8) -> bool {
+    crate::encode::verif::is_qr_alphanumeric(c)
+}
+pub fn ascii_to_alphanumeric(c: u8) -> usize {
+    crate::encode::ascii_to_alphanumeric(c)
+}
+
+// ---- polynomials.rs ---------------------------------------------------------------------
+pub fn gf_log() -> [u8; 256] {
+    crate::polynomials::verif::LOG
+}
+pub fn gf_antilog() -> [u8; 256] {
+    crate::polynomials::verif::ANTILOG
+}
+pub fn division(from: &[u8], by: &[u8]) -> [u8; 255] {
+    crate::polynomials::division(from, by)
+}
+pub fn structure(data: &[u8], ecl: ECL, v: Version) -> [u8; 5430] {
+    crate::polynomials::structure(data, ecl, v)
+}
+
+// ---- default.rs / placement.rs / score.rs ------------------------------------------------
+pub fn create_matrix(v: Version) -> QRCode {
+    crate::default::create_matrix(v)
+}
+pub fn transpose(qr: &QRCode) -> QRCode {
+    crate::default::transpose(qr)
+}
+pub fn create_matrix_format_info(qr: &mut QRCode, ecl: ECL, mask: Mask) {
+    crate::default::create_matrix_format_info(qr, ecl, mask);
+}
+pub fn place_on_matrix_data(qr: &mut QRCode, data: &[u8], len: usize) {
+    let c = CompactQR::from_array(data, len);
+    crate::placement::place_on_matrix_data(qr, &c);
+}
+pub fn masks_order() -> [Mask; 8] {
+    crate::placement::verif::MASKS
+}
+pub fn score(qr: &QRCode, qr_transpose: &QRCode) -> u32 {
+    crate::score::score(qr, qr_transpose)
+}
+pub fn score_line(l: &[crate::Module]) -> (u32, u32) {
+    crate::score::verif::line(l)
+}
+pub fn score_squares(qr: &QRCode) -> u32 {
+    crate::score::verif::matrix_score_squares(qr)
+}
+pub fn score_dark(qr: &QRCode) -> u32 {
+    crate::score::verif::dark_module_score(qr)
+}
+
+// ---- selection recorder (placement.rs) ----------------------------------------------------
+/// One candidate of the automatic mask selection: the mask tried, the score it was ranked by
+/// and the candidate matrix (`size * size` raw module bytes).
+pub struct Candidate {
+    pub mask: Mask,
+    pub score: u32,
+    pub size: usize,
+    pub modules: Vec<u8>,
+}
+
+std::thread_local! {
+    static RECORDER: std::cell::RefCell<Option<Vec<Candidate>>> = std::cell::RefCell::new(None);
+}
+
+/// Starts recording the candidates of the builds made on this thread.
+pub fn recorder_start() {
+    RECORDER.with(|r| *r.borrow_mut() = Some(Vec::new()));
+}
+/// Stops recording and returns what was recorded since `recorder_start`.
+pub fn recorder_take() -> Vec<Candidate> {
+    RECORDER.with(|r| r.borrow_mut().take().unwrap_or_default())
+}
+pub(crate) fn record_candidate(mask: Mask, score: u32, qr: &QRCode) {
+    RECORDER.with(|r| {
+        if let Some(v) = r.borrow_mut().as_mut() {
+            let n = qr.size;
+            v.push(Candidate {
+                mask,
+                score,
+                size: n,
+                modules: qr.data[..n * n].iter().map(|m| m.0).collect(),
+            });
+        }
+    });
+}
+
+// ---- convert/svg.rs ---------------------------------------------------------------------
+#[cfg(feature = "svg")]
+pub fn svg_image_placement(shape: crate::convert::ImageBackgroundShape, n: usize) -> (f64, f64) {
+    crate::convert::svg::SvgBuilder::verif_image_placement(shape, n)
+}
